@@ -242,7 +242,7 @@ func runNQuads(c *Ctx) *Violation {
 	t := c.T
 	tc := tapeChooser{t}
 	c.Declare("constructor_terms", "torn_line_still_valid", "torn_line_parse_error", "bad_lines", "comment_lines", "read_n>0_with_EOF", "zero_length_read",
-		"substituted_accepted", "statements_not_delivered_before_io_error", "crlf_lines")
+		"substituted_accepted", "statements_not_delivered_before_io_error", "crlf_lines", "decoder_reset")
 
 	// ---- control: ParseNQuad(s.String()) == s ----
 	n := 1 + t.Choose(simrt.KWorkload, 8)
@@ -506,6 +506,60 @@ func runNQuads(c *Ctx) *Violation {
 		}); v != nil {
 			return v
 		}
+	}
+
+	// ---- stream arm: Reset and a second stream through the same Decoder ----
+	// "Reset resets the decoder to use the provided io.Reader, retaining the
+	// existing Term ID mapping": a term seen before keeps its UID, a new term
+	// gets one no other term has, and Terms() agrees with the statements
+	if v := c.Guard("Decoder/reset", func() string { return fmt.Sprintf("%q, Reset, then the same lines in reverse order with two new statements", doc) }, func() *Violation {
+		dec := rdf.NewDecoder(&simio.Reader{Data: doc, Plan: simio.NoFaults(), Ch: tc})
+		first, _ := rdfDrain(dec, maxCalls)
+		var second []byte
+		lines := bytes.Split(doc, []byte("\n"))
+		second = append(second, "<ex:reset-s> <ex:reset-p> \"new\" <ex:reset-g> .\n"...)
+		for i := len(lines) - 1; i >= 0; i-- {
+			second = append(append(second, lines[i]...), '\n')
+		}
+		second = append(second, "_:resetb <ex:reset-p> <ex:reset-s> .\n"...)
+		dec.Reset(&simio.Reader{Data: second, Plan: simio.NoFaults(), Ch: tc})
+		again, _ := rdfDrain(dec, len(lines)+12)
+		c.Case("control", false, hd, 99)
+		c.Oracle("uids-across-reset")
+		c.Probe("decoder_reset", 1)
+		ids := map[string]int64{}
+		back := map[int64]string{}
+		n := 0
+		for _, it := range append(append([]rdfItem(nil), first...), again...) {
+			if it.s == nil {
+				continue
+			}
+			n++
+			for j, tm := range []rdf.Term{it.s.Subject, it.s.Predicate, it.s.Object, it.s.Label} {
+				if j == 3 && tm.Value == "" {
+					continue
+				}
+				if id, ok := ids[tm.Value]; ok && id != tm.UID {
+					return viol("nquads/Decoder/uid-across-reset", "term %q has UID %d before and %d after Reset", tm.Value, id, tm.UID)
+				}
+				if v, ok := back[tm.UID]; ok && v != tm.Value {
+					return viol("nquads/Decoder/uid-across-reset", "terms %q and %q share UID %d (one stream, Reset, a second stream)", v, tm.Value, tm.UID)
+				}
+				ids[tm.Value], back[tm.UID] = tm.UID, tm.Value
+			}
+		}
+		terms := dec.Terms()
+		for text, id := range ids {
+			if terms[text] != id {
+				return viol("nquads/Decoder/terms", "Terms()[%q] = %d, the statements carry UID %d", text, terms[text], id)
+			}
+		}
+		if len(terms) != len(ids) {
+			return viol("nquads/Decoder/terms", "Terms() holds %d terms, the %d statements decoded hold %d", len(terms), n, len(ids))
+		}
+		return nil
+	}); v != nil {
+		return v
 	}
 
 	// ---- stream arm: the stream ends / fails after k bytes, every k ----
